@@ -40,6 +40,9 @@ use crate::{
 mod drop_listener;
 mod framed_dc;
 mod state;
+#[cfg(libp2p_verif)]
+#[path = "verif_proto_b.rs"]
+mod verif_proto_b;
 
 /// Maximum length of a message.
 ///
